@@ -1193,8 +1193,8 @@ class TrickleServer(object):
     """A device that answers CNXN and OPEN at once and then lets ONE WRTE packet trickle in: `step` bytes every `gap` seconds (C11's
     'bytes trickling too slowly'): each fragment arrives well inside the transport timeout, the packet as a whole not inside read_timeout_s."""
 
-    def __init__(self, payload_len, step, gap):
-        self.payload_len, self.step, self.gap = payload_len, step, gap
+    def __init__(self, payload_len, step, gap, mode="trickle"):
+        self.payload_len, self.step, self.gap, self.mode = payload_len, step, gap, mode
         self.error = None
         self.stop = False
         self.lsock = socket.socket(socket.AF_INET, socket.SOCK_STREAM)
@@ -1239,8 +1239,13 @@ class TrickleServer(object):
             if m is None or m[0] != b"OPEN":
                 return
             local = m[1]
+            if self.mode == "eof_open":
+                return                      # orderly end of stream instead of the answer to OPEN (adbd restarting)
             conn.sendall(_adb_msg(b"OKAY", 77, local))
             raw = _adb_msg(b"WRTE", 77, local, bytes((i * 7) & 0xFF for i in range(self.payload_len)))
+            if self.mode == "eof_mid":
+                conn.sendall(raw[:24 + self.payload_len // 2])   # ... or in the middle of a packet
+                return
             i = 0
             while i < len(raw) and not self.stop:
                 conn.sendall(raw[i:i + self.step])
@@ -1263,7 +1268,7 @@ class TrickleServer(object):
             self.lsock.close()
 
 
-def check_trickle_session(ctx, impl, tt=0.2, rt=0.5, payload_len=120, step=1, gap=0.05):
+def check_trickle_session(ctx, impl, tt=0.2, rt=0.5, payload_len=120, step=1, gap=0.05, mode="trickle"):
     """C11 on a REAL socket, through the real TcpTransport / TcpTransportAsync: a stream operation whose packet trickles in more slowly than
     read_timeout_s allows must fail with a timeout kind within the bound proved for the model (R + 2(R + max(D, tau)) per wait, one wait for
     the OPEN's OKAY having succeeded), and must not return the data."""
@@ -1273,9 +1278,10 @@ def check_trickle_session(ctx, impl, tt=0.2, rt=0.5, payload_len=120, step=1, ga
     rep = ctx.report
     sync_mod.time = time
     async_mod.time = time
-    server = TrickleServer(payload_len, step, gap)
+    server = TrickleServer(payload_len, step, gap, mode)
     total_trickle = (24 + payload_len) / float(step) * gap
     bound = rt + 2 * (rt + tt) + LATE_SLACK
+    hang_after = bound + 6.0
     t0 = time.monotonic()
     res = None
     try:
@@ -1283,15 +1289,25 @@ def check_trickle_session(ctx, impl, tt=0.2, rt=0.5, payload_len=120, step=1, ga
             dev = sync_mod.AdbDeviceTcp("127.0.0.1", server.port, default_transport_timeout_s=2.0)
             dev.connect(auth_timeout_s=2.0, read_timeout_s=2.0)
             t0 = time.monotonic()
-            try:
-                res = ("ok", dev.shell("x", transport_timeout_s=tt, read_timeout_s=rt, decode=False))
-            except BaseException as exc:  # noqa
-                res = ("err", exc)
+            box = {}
+
+            def call():
+                try:
+                    box["res"] = ("ok", dev.shell("x", transport_timeout_s=tt, read_timeout_s=rt, decode=False))
+                except BaseException as exc:  # noqa
+                    box["res"] = ("err", exc)
+            th = threading.Thread(target=call, name="c18-stalled-op", daemon=True)
+            th.start()
+            th.join(hang_after)
             el = time.monotonic() - t0
-            try:
-                dev.close()
-            except Exception:  # noqa
-                pass
+            if th.is_alive():
+                res = ("hang", None)     # the thread is abandoned (daemon); it may keep spinning until the process ends
+            else:
+                res = box["res"]
+                try:
+                    dev.close()
+                except Exception:  # noqa
+                    pass
         else:
             async def go():
                 dev = async_mod.AdbDeviceTcpAsync("127.0.0.1", server.port, default_transport_timeout_s=2.0)
@@ -1309,7 +1325,10 @@ def check_trickle_session(ctx, impl, tt=0.2, rt=0.5, payload_len=120, step=1, ga
                 return r, e
             loop = asyncio.new_event_loop()
             try:
-                res, el = loop.run_until_complete(asyncio.wait_for(go(), 60))
+                try:
+                    res, el = loop.run_until_complete(asyncio.wait_for(go(), hang_after + 4.0))
+                except asyncio.TimeoutError:
+                    res, el = ("hang", None), time.monotonic() - t0
             finally:
                 loop.close()
     except BaseException as exc:  # noqa
@@ -1317,8 +1336,13 @@ def check_trickle_session(ctx, impl, tt=0.2, rt=0.5, payload_len=120, step=1, ga
     server.stop = True
     server.thread.join(5)
     rep.evaluations += 1
-    rep.count("trickle_session", "%s %s" % (impl, res[0] if res[0] != "err" else type(res[1]).__name__))
-    case = dict(test="trickle", impl=impl, tt=tt, rt=rt, payload_len=payload_len, step=step, gap=gap)
+    rep.count("trickle_session", "%s %s %s" % (impl, mode, res[0] if res[0] != "err" else type(res[1]).__name__))
+    case = dict(test="trickle", impl=impl, tt=tt, rt=rt, payload_len=payload_len, step=step, gap=gap, mode=mode)
+    what = {"trickle": "whose packet trickles in 1 byte / %.0f ms" % (gap * 1000), "eof_open": "that ends the stream instead of answering OPEN",
+            "eof_mid": "that ends the stream in the middle of a packet"}[mode]
+    if res[0] == "hang":
+        return dict(case=case, why="%s shell on a device %s was still blocked after %.1f s (bound for one wait %.2f s; read_timeout_s=%.2f, transport_timeout_s=%.2f): no timeout was raised" % (
+            impl, what, el, bound, rt, tt), kinds=["hang"], signature=SIG)
     if res[0] == "err-setup":
         return dict(case=case, why="trickle session over loopback: connect failed: %r" % (res[1],), kinds=["infra"], signature=SIG)
     timeout_kinds = (exceptions.AdbTimeoutError, exceptions.TcpTimeoutException)
@@ -1330,8 +1354,8 @@ def check_trickle_session(ctx, impl, tt=0.2, rt=0.5, payload_len=120, step=1, ga
     if el > bound:
         return dict(case=case, why="%s shell on a trickling device gave up after %.2f s; the bound for one wait is %.2f s (read_timeout_s=%.2f, transport_timeout_s=%.2f)" % (
             impl, el, bound, rt, tt), kinds=["late"], signature=SIG)
-    rep.signatures.add(("trickle", impl))
-    rep.sample("%s shell over loopback, packet trickling 1 byte / %.0f ms: %s after %.2f s (bound %.2f s)" % (impl, gap * 1000, type(res[1]).__name__, el, bound))
+    rep.signatures.add(("trickle", impl, mode))
+    rep.sample("%s shell over loopback, device %s: %s after %.2f s (bound %.2f s)" % (impl, what, type(res[1]).__name__, el, bound))
     return None
 
 
@@ -1368,7 +1392,8 @@ def run(ctx):
         note(check_reset(ctx, kind))
         note(check_poll(ctx, kind))
         note(check_write(ctx, kind, 1 << 20 if quick else 5 << 20))
-        note(check_trickle_session(ctx, kind))
+        for mode in ("trickle", "eof_open", "eof_mid"):
+            note(check_trickle_session(ctx, kind, mode=mode))
     observe_async_write_timeout(ctx)
     nsess = 2 if quick else 6
     for v in range(nsess):
@@ -1414,7 +1439,7 @@ def replay(ctx, payload):
     elif test == "session":
         f = check_session(ctx, case["impl"], case["seed"], case["variant"])
     elif test == "trickle":
-        f = check_trickle_session(ctx, case["impl"], case["tt"], case["rt"], case["payload_len"], case["step"], case["gap"])
+        f = check_trickle_session(ctx, case["impl"], case["tt"], case["rt"], case["payload_len"], case["step"], case["gap"], case.get("mode", "trickle"))
     else:
         print("unknown case %r" % (case,))
         return True
